@@ -12,6 +12,7 @@ import (
 	idp "berty.tech/go-ipfs-log/identityprovider"
 	"berty.tech/go-ipfs-log/internal/vx"
 	"berty.tech/go-ipfs-log/keystore"
+	"github.com/btcsuite/btcd/btcec"
 	"github.com/ipfs/go-datastore"
 	"github.com/libp2p/go-libp2p/core/crypto"
 )
@@ -170,6 +171,19 @@ func H_C20_identity() {
 	// a different id gives a different identity
 	o, err := idp.CreateIdentity(ctx, &idp.CreateIdentityOptions{Keystore: ks1, ID: "someone-else", Type: "orbitdb"})
 	vx.Assert("C20", err == nil && o.ID != a.ID && !bytes.Equal(o.PublicKey, a.PublicKey), "different ids yield different identities")
+	if err == nil {
+		// the other identity restored with the first one's provider object (what decoding a stored identity with a
+		// reader's provider yields; both keys live in the same keystore): it signs with its own key
+		o2 := *o
+		o2.Provider = b.Provider
+		e2, err := entry.CreateEntryWithIO(ctx, api, &o2, &entry.Entry{LogID: "X", Payload: []byte("q")}, nil, io)
+		vx.Assert("C20", err == nil, "an entry can be signed with the identity")
+		if err == nil {
+			vx.Assert("C20", bytes.Equal(e2.GetKey(), o.PublicKey), "the entry carries the published key bytes")
+			vx.Assert("C20", e2.Verify(a.Provider, io) == nil, "entries signed with the identity verify under the published key bytes (identity bound to another identity's provider)")
+		}
+		vx.Cover("second-identity-same-provider")
+	}
 	vx.Cover("identity-checked")
 }
 
@@ -222,3 +236,65 @@ func H_C20_readfault() {
 }
 
 var _ = register("H_C20_readfault", H_C20_readfault)
+
+// H_C20_fresh: an identity over freshly generated keys (not the fixture keys): the signing key's public point may
+// have a Y coordinate whose leading byte is zero (one key in 256) - the published key bytes are a key all the
+// same, the identity's signatures verify under it and so do entries signed with the identity. Natively keys are
+// drawn until one of the shape the model names turns up.
+func H_C20_fresh() {
+	short := vx.Bool("yLeadingZero")
+	var id *idp.Identity
+	var priv crypto.PrivKey
+	for try := 0; ; try++ {
+		ks, err := keystore.NewKeystore(datastore.NewMapDatastore())
+		vx.Assert("C20", err == nil, "a keystore can be opened")
+		id, err = idp.CreateIdentity(ctx, &idp.CreateIdentityOptions{Keystore: ks, ID: "fresh", Type: "orbitdb"})
+		vx.Assert("C20", err == nil && id != nil, "CreateIdentity succeeds")
+		if err != nil {
+			return
+		}
+		priv, err = ks.GetKey(ctx, id.ID)
+		vx.Assert("C20", err == nil && priv != nil, "the identity's signing key is in the keystore")
+		if err != nil {
+			return
+		}
+		if !vx.Native() || yLeadingZero(priv) == short || try > 20000 {
+			break
+		}
+	}
+	vx.AssumeKeyY(priv, short)
+	if short {
+		vx.Cover("y-with-leading-zero-byte")
+	}
+	pub, err := id.Provider.UnmarshalPublicKey(id.PublicKey)
+	vx.Assert("C20", err == nil && pub != nil, "the published public key bytes are a key")
+	if err != nil {
+		return
+	}
+	vx.Assert("C20", pub.Equals(priv.GetPublic()), "the published key is the public key of the identity's signing key")
+	ok, verr := pub.Verify([]byte(id.ID), id.Signatures.ID)
+	vx.Assert("C20", verr == nil && ok, "the id signature verifies under the published key")
+	api := newMemAPI()
+	io := &atomIO{api: api}
+	e, err := entry.CreateEntryWithIO(ctx, api, id, &entry.Entry{LogID: "X", Payload: []byte("p")}, nil, io)
+	vx.Assert("C20", err == nil, "an entry can be signed with the identity")
+	if err == nil {
+		vx.Assert("C20", e.Verify(id.Provider, io) == nil, "entries signed with the identity verify under the published key bytes")
+	}
+	vx.Cover("fresh-identity-checked")
+}
+
+// yLeadingZero (native runs only): does the Y coordinate of the key's public point start with a zero byte?
+func yLeadingZero(priv crypto.PrivKey) bool {
+	raw, err := priv.GetPublic().Raw()
+	if err != nil {
+		panic(err)
+	}
+	pk, err := btcec.ParsePubKey(raw, btcec.S256())
+	if err != nil {
+		panic(err)
+	}
+	return len(pk.Y.Bytes()) < 32
+}
+
+var _ = register("H_C20_fresh", H_C20_fresh)
